@@ -92,6 +92,8 @@ class Sim:
         self.app_jobs = []                # application-owned API coroutines kept in flight across the unload
         self.children = {}                # id(creator overlay) -> overlays it created
         self.children_done_before = []    # children that had been unloaded already when the parent's unload was requested
+        self.extra_overlays = []          # overlays the scenario's application created next to the nodes' overlays
+        self.owner_unloaded = []          # (child overlay, parent overlay, virtual time its unload() returned): unloaded by its owner
         self.iter = 0                     # event-loop iterations of this run so far
         self.trigger_iter = None          # request the unload when this iteration starts
         self.send_iters = []              # (iteration, index of the destination node) of every packet sent
@@ -150,6 +152,12 @@ class Sim:
                                      f"the {type(child).__name__} that the unloaded {type(self.target.overlay).__name__} had "
                                      f"created sent msg id {packet[22] if len(packet) > 22 else -1} "
                                      f"{self.loop.time() - self.unload_done:.1f} virtual s after unload() returned")
+        for child, parent, t in self.owner_unloaded:
+            if getattr(node, "overlay", None) is parent and packet[:22] == child.get_prefix():
+                self.violate("endpoint.send:after-unload",
+                             f"the {type(child).__name__} that its owner ({type(parent).__name__}, still loaded or not) had unloaded "
+                             f"sent msg id {packet[22] if len(packet) > 22 else -1} {self.loop.time() - t:.1f} virtual s after that "
+                             f"unload() returned")
         if self.trigger_step is not None and self.step - 1 == self.trigger_step and self.unload_started is None:
             self.request_unload()
 
@@ -174,6 +182,11 @@ class Sim:
         countdown(tm[3])
 
     def strategy_stepped(self, strategy):
+        hit = self.owner_unloaded_at(getattr(strategy, "overlay", None))
+        if hit is not None and not self.quiet:
+            self.violate("strategy.take_step:after-unload",
+                         f"the service stepped {type(strategy).__name__} of the {type(strategy.overlay).__name__} that its owner "
+                         f"({type(hit[0]).__name__}) had unloaded {self.loop.time() - hit[1]:.1f} virtual s earlier")
         if self.target is not None and self.after_unload() and getattr(strategy, "overlay", None) is self.target.overlay:
             self.violate("strategy.take_step:after-unload",
                          f"the service stepped {type(strategy).__name__} of the unloaded {type(self.target.overlay).__name__} "
@@ -193,6 +206,20 @@ class Sim:
                             f"still receives datagrams {sim.loop.time() - sim.unload_done:.1f} virtual s after unload() returned")
             return orig(packet, *a, **k)
         child.on_packet = on_packet
+        orig_unload = child.unload
+
+        async def unload(*a, **k):
+            res = await orig_unload(*a, **k)
+            if all(c is not child for c, _, _ in sim.owner_unloaded):
+                sim.owner_unloaded.append((child, parent, sim.loop.time()))     # unloaded by the code of the run itself
+            return res
+        child.unload = unload
+
+    def owner_unloaded_at(self, ov):
+        for c, parent, t in self.owner_unloaded:
+            if c is ov:
+                return parent, t
+        return None
 
     def node_of_overlay(self, ov):
         for nd in self.nodes:
@@ -364,6 +391,18 @@ def install_patches():
     ov_mod.Overlay.__init__ = ov_init
     _PATCHED["ov_init"] = orig_ov_init
 
+    import ipv8_service
+    orig_add_strategy = ipv8_service.IPv8.add_strategy
+
+    def add_strategy(self, overlay, strategy, target_peers):
+        sim = Sim.current
+        if sim is not None and not getattr(strategy, "c11_watched", False):
+            watch_strategy(sim, strategy)
+        return orig_add_strategy(self, overlay, strategy, target_peers)
+
+    ipv8_service.IPv8.add_strategy = add_strategy
+    _PATCHED["add_strategy"] = orig_add_strategy
+
     orig_enable = es_mod.TunnelExitSocket.enable
 
     def enable(self):
@@ -417,8 +456,19 @@ def build_node(sim, cls, stack, flags=None, companion=False, controller=False):
     from ipv8.messaging.anonymization.endpoint import TunnelEndpoint
     from ipv8.peer import Peer
     from ipv8.peerdiscovery.network import Network
-    rec = make_endpoint_class()()
-    rec.open()
+    rec_cls = make_endpoint_class()
+    if controller:
+        base_cls = rec_cls
+
+        class rec_cls(base_cls):          # IPv8.start() awaits endpoint.open()
+            async def open(self):
+                base_cls.open(self)
+                return True
+    rec = rec_cls()
+    if controller:
+        type(rec).__mro__[1].open(rec)
+    else:
+        rec.open()
     extra = []
     if stack == "tunnel-endpoint":
         endpoint = TunnelEndpoint(rec)
@@ -538,6 +588,9 @@ async def sc_anon(sim, nodes, rng):
 
 
 def watch_strategy(sim, strategy):
+    if getattr(strategy, "c11_watched", False):
+        return
+    strategy.c11_watched = True
     orig = strategy.take_step
 
     def take_step(*a, **k):
@@ -870,21 +923,41 @@ async def sc_inflight(sim, nodes, rng):
 
 
 async def sc_hidden_intro(sim, nodes, rng):
-    """Hidden services: originators make the exit node an introduction point, which starts a PexCommunity of its own
-    (same key, same endpoint) for the swarm — an overlay that the introduction point owns."""
+    """Hidden services under RUNNING IPv8 services: originators make the exit node an introduction point, which starts a
+    PexCommunity of its own (same key, same endpoint, two strategies registered with the service) — an overlay that the
+    introduction point owns.  A swarm member joins the PEX overlay; later the originators give their introduction circuits
+    up, so the introduction point unloads the PEX overlay ITSELF while it stays loaded and its service keeps ticking."""
     from ipv8.keyvault.crypto import default_eccrypto
     from ipv8.messaging.anonymization.payload import EstablishIntroPayload
+    from ipv8.messaging.anonymization.pex import PexCommunity, PexSettings
     from ipv8.messaging.anonymization.tunnel import PEER_FLAG_EXIT_BT
+    from ipv8.peerdiscovery.network import Network
+    for nd in nodes:
+        if getattr(nd, "service", None) is not None:
+            await nd.service.start()
     await introduce(nodes)
     info_hash = bytes(rng.getrandbits(8) for _ in range(20))
+    circs = []
     for i, a in enumerate(nodes[:-1]):
         circ = act(a, "create_circuit", 1, exit_flags=[PEER_FLAG_EXIT_BT])
         await nap(1.2)
         if circ is not None and circ.hop is not None:
             seeder_pk = default_eccrypto.generate_key("curve25519").pub().key_to_bin()
             act(a, "send_cell", circ.hop.address, EstablishIntroPayload(circ.circuit_id, 40 + i, info_hash, seeder_pk))
+            circs.append((a, circ))
         await nap(0.8)
-    await nap(4.0)
+    # a member of the swarm (on node 0's endpoint) joins the PEX overlay of the introduction point
+    member = guarded(PexCommunity, PexSettings(my_peer=nodes[0].overlay.my_peer, endpoint=nodes[0].endpoint,
+                                               network=Network(), info_hash=info_hash))
+    if member is not None:
+        sim.extra_overlays.append(member)
+        guarded(member.walk_to, nodes[-1].base.wan_address)
+    await nap(2.0)
+    if rng.random() < 0.7:
+        for a, circ in circs:          # the originators give their introduction circuits up
+            act(a, "remove_circuit", circ.circuit_id, "application", remove_now=True, destroy=1)
+            await nap(0.5)
+    await nap(9.0)
 
 
 SCENARIOS = {"hidden-intro": sc_hidden_intro, "anon": sc_anon, "service": sc_service, "inflight": sc_inflight, "attestation": sc_attestation, "intro": sc_intro, "discovery": sc_discovery, "dht": sc_dht, "tunnel": sc_tunnel}
@@ -1030,6 +1103,7 @@ def run_scenario(spec, dry=False):
         asyncio.set_event_loop(None)
         mock_ep.internet.clear()
     sim.stats["steps"] = sim.step
+    sim.stats["owner_unloaded"] = len(sim.owner_unloaded)
     sim.stats["send_iters"] = sim.send_iters if dry else []
     sim.stats["ids_seen"] = len(sim.seen_ids)
     return sim.violations, sim.stats
@@ -1123,6 +1197,8 @@ async def _scenario_main(sim, cls, spec, rng, dry):
     for nd in nodes:
         if getattr(nd, "companion", None) is not None:
             await aguarded(nd.companion.unload())
+    for xo in sim.extra_overlays:
+        await aguarded(xo.unload())
     svc = getattr(target, "service", None)
     if svc is not None:
         # the service of the unloaded overlay keeps ticking its other overlays for two more virtual minutes
@@ -1134,6 +1210,14 @@ async def _scenario_main(sim, cls, spec, rng, dry):
                         f"{'the overlay and ' if ov in svc.overlays else ''}its strategies {left}")
         await aguarded(svc.stop())
     await nap(TWO_HOURS)
+    for nd in nodes:
+        svc_n = getattr(nd, "service", None)
+        for child, parent, _ in sim.owner_unloaded:
+            left = [type(st).__name__ for st, _ in getattr(svc_n, "strategies", []) if getattr(st, "overlay", None) is child]
+            if left:
+                sim.violate("IPv8:strategy-left-for-unloaded-overlay",
+                            f"the service still lists the strategies {left} of the {type(child).__name__} that its owner "
+                            f"({type(parent).__name__}) had unloaded")
     final_checks(sim, target)
     for j in sim.app_jobs:
         if not j.done():
@@ -2224,6 +2308,8 @@ def run_one_scenario(ctx: Ctx, spec):
     ctx.count("unload-with-protocol-tasks-pending" if st["pre_tasks"] else "unload-with-only-builtin-periodic-tasks")
     if st.get("owned_children"):
         ctx.count("unload-with-owned-child-overlays")
+    if st.get("owner_unloaded"):
+        ctx.count("child-overlay-unloaded-by-its-owner")
     ctx.count("target-traffic:%s" % ("none" if st["pre_sent"] + st["pre_recv"] == 0 else
                                      "1-9" if st["pre_sent"] + st["pre_recv"] < 10 else "10+"))
     nontrivial = (st["pre_sent"] + st["pre_recv"] > 0) or st["pre_tasks"] > 0      # RULE: traffic or a protocol task pending
